@@ -42,7 +42,8 @@ ASSUMPTIONS = ["un-modelled view types are covered by the run-time soundness rel
 
 
 K2 = ["same", "fixed", "ndarray_fs_db", "ndarray_hs_hb", "ndarray_ds_db", "ndarray_ls_fb"]
-BINOP = {0: "add_ab", 1: "add_ba", 2: "multiply_ab", 3: "add_c31_d13", 4: "add_d13_c31", 5: "multiply_of_two_sided_adds", 6: "outer_add_c_d", 7: "outer_add_d_c", 8: "outer_add_c_dshrunk", 9: "outer_add_dshrunk_c"}
+BINOP = {0: "add_ab", 1: "add_ba", 2: "multiply_ab", 3: "add_c31_d13", 4: "add_d13_c31", 5: "multiply_of_two_sided_adds", 6: "outer_add_c_d", 7: "outer_add_d_c", 8: "outer_add_c_dshrunk", 9: "outer_add_dshrunk_c",
+         10: "concat_a23_d13", 11: "concat_d13_a23", 12: "concat_c22_dshrunk12", 13: "concat_dshrunk12_c22"}
 WHERE = {0: "where_c3_scalar_y53", 1: "where_c3_y53_scalar", 2: "where_c53_x3_scalar", 3: "where_c3_x3_y53"}
 
 
@@ -61,6 +62,8 @@ def gen_cases(rng, tier):
     for k in KINDS:
         for k2 in K2:
             for op in BINOP: out.append(("kind-pairs", "kb S:%s S:%s I:%d" % (k, k2, op), "c11b"))
+        for k2 in ("ndarray_ls_db", "ndarray_cs_fb"):          # concatenate: also a clipped shape that can shrink, and a constant shape
+            for op in (10, 11, 12, 13): out.append(("kind-pairs", "kb S:%s S:%s I:%d" % (k, k2, op), "c11b"))
         for v in WHERE: out.append(("where", "kw S:%s I:%d" % (k, v), "c11b"))
     return out
 
@@ -88,13 +91,15 @@ def classify(line, impl, spec, model):
     if len(fi) != len(fs) or len(fi) < 6: return None
     diff = [i for i in range(len(fi)) if " ".join(fi[i].split()) != " ".join(fs[i].split())]
     t = line.split(" ")
-    if diff == [1] and t[1] == "S:nested_arr":
+    if 1 in diff and t[1] == "S:nested_arr":
         m = re.match(r"art=(\d+)(?:,[\d,]*)? dim=\d+ size=(\d+)$", " ".join(fi[1].split()))
         if m and m.group(1) == m.group(2):        # nmtools::size() returned the OUTER extent of the nested std::array
-            return "size-accessor-nested-std-array"
+            if diff == [1]: return "size-accessor-nested-std-array"
+            diff = [i for i in diff if i != 1]    # ... together with the legacy-resolver finding below (two listed defects on one line)
     if diff == [len(fi) - 1] and fi[-1].startswith("old="):
         t = line.split(" ")
-        if t[0] == "kb": return "legacy-eval_t-no-room:%s:%s:%s" % (t[1][2:], BINOP[int(t[3][2:])], t[2][2:])
-        if t[0] == "kw": return "legacy-eval_t-no-room:%s:%s" % (t[1][2:], WHERE[int(t[2][2:])])
+        # views over TWO or three operands (kind pairs, where): one class per kind of the FIRST operand (the legacy resolver derives the
+        # result type from it); the condition above is the tight part: every other field, the default resolver's result included, is right
+        if t[0] in ("kb", "kw"): return "legacy-eval_t-no-room:%s:multi-operand-view" % t[1][2:]
         return "legacy-eval_t-no-room:%s:%s" % (t[1][2:], OPNAME[int(t[2][2:])])
     return None
